@@ -120,6 +120,10 @@ func valuesEqual(a, b Value) (bool, bool) {
 type LoopIter struct{ ast.Stmt }
 type LoopDone struct{ ast.Stmt }
 
+// LoopBreak is handed to Domain.Visit for every state that leaves a loop
+// through a break statement (before LoopDone).
+type LoopBreak struct{ ast.Stmt }
+
 // DomState is the rule-specific part of an abstract state.
 type DomState interface{ Key() string }
 
@@ -909,7 +913,9 @@ func (ip *Interp) execFor(fr *Frame, s *ast.ForStmt, st *State, label string) fl
 		}
 		bf := ip.execBlock(fr, s.Body.List, bodyIn)
 		fl.ret = append(fl.ret, bf.ret...)
-		exits.addAll(takeLabel(bf.brk, label))
+		for _, b := range takeLabel(bf.brk, label) {
+			exits.add(ip.Dom.Visit(ip, fr, b, LoopBreak{s}))
+		}
 		next := append(bf.normal, takeLabel(bf.cont, label)...)
 		fl.merge(flow{brk: bf.brk, cont: bf.cont})
 		if s.Post != nil {
@@ -967,7 +973,9 @@ func (ip *Interp) execRange(fr *Frame, s *ast.RangeStmt, st *State, label string
 		}
 		bf := ip.execBlock(fr, s.Body.List, bodyIn)
 		fl.ret = append(fl.ret, bf.ret...)
-		exits.addAll(takeLabel(bf.brk, label))
+		for _, b := range takeLabel(bf.brk, label) {
+			exits.add(ip.Dom.Visit(ip, fr, b, LoopBreak{s}))
+		}
 		next := append(bf.normal, takeLabel(bf.cont, label)...)
 		fl.merge(flow{brk: bf.brk, cont: bf.cont})
 		head = dedup(next)
